@@ -1394,7 +1394,7 @@ func (p *parser) parseLitMatcher(lit *litMatcher) (any, bool) {
 		if lit.ignoreCase {
 			cur = unicode.ToLower(cur)
 		}
-		if cur != want {
+		if cur != want || p.pt.w == 0 { // w == 0: end of input, which no literal matches (see utf8.DecodeRune)
 			p.failAt(false, start.position, lit.want)
 			p.restore(start)
 			return nil, false
